@@ -202,7 +202,10 @@ def run_case(case, ctx):
                     ns = new[-1]
                     ctx.check(ns > max(seen + [0]), "seqnum-not-above-survey", "%s: publish (offline servers %r) wrote sequence number %d although its survey was shown shares with sequence numbers %r" % (desc(), step[1], ns, sorted(set(seen))),
                               new=ns, seen=max(seen + [0]))
-                    ctx.check(ns > last_seq or max(seen + [0]) < last_seq, "seqnum-not-increasing", "%s: publish wrote sequence number %d after this writer's earlier %d (survey saw %r)" % (desc(), ns, last_seq, sorted(set(seen))))
+                    ctx.check(ns > last_seq, "seqnum-not-increasing", "%s: publish wrote sequence number %d after this writer's earlier %d (survey saw %r)" % (desc(), ns, last_seq, sorted(set(seen))),
+                              survey_saw_previous=max(seen + [0]) >= last_seq)
+                    if max(seen + [0]) < last_seq:
+                        classes.add("own-previous-version-out-of-reach-of-survey")
                     if ns in contents and body not in contents[ns]:
                         classes.add("seqnum-reused-after-unseen-version")
                     contents.setdefault(ns, []).extend(bodies)
